@@ -24,6 +24,9 @@ def chunks(tier):
     for n in range(1, (10 if full else 8) + 1):
         out.append(("A2", {"fam": "A2", "method": "nearsquare", "n": n}))
     for method in ("nearsquare", "rectangle"):
+        for n in range(1, (25 if full else 13)):
+            out.append(("A1E", {"fam": "A1E", "method": method, "n": n}))
+    for method in ("nearsquare", "rectangle"):
         for n in range(1, (13 if full else 7)):
             out.append(("A1Z", {"fam": "A1Z", "method": method, "n": n, "flow": "system" if n % 2 else "borehole"}))
     for method in ("nearsquare", "rectangle", "bizoned", "birectangle"):
@@ -135,7 +138,7 @@ def main_for(prop, run: core.Run, rule_extra: str, require=(), only=None):
         validated = 0
     rule = (
         "one evaluation = one complete GHEManager.find_design() of the real search code over a fake-physics world "
-        "(families A1 monotone thresholds (A1Z: a temperature limit of exactly 0), A7 reconfiguration histories on one manager, A8 narrow / empty spacing windows on a lot lattice, A1R excess rising with height, A2 sign patterns, A3 sign x rank, A4 nested lists, A5 real candidate lists and A6 the real RowWise "
+        "(families A1 monotone thresholds (A1Z: a temperature limit of exactly 0), A7 reconfiguration histories on one manager, A8 narrow / empty spacing windows on a lot lattice, A1R excess rising with height, A1E a candidate missing / meeting the limit by 0.05 mK, A2 sign patterns, A3 sign x rank, A4 nested lists, A5 real candidate lists and A6 the real RowWise "
         "generator, both with a drilling-length world); every world of each family within the bound is enumerated; non-trivial = the search "
         "evaluated at least 3 candidates at max height; states/transitions = abstract search states "
         "(method, list shape, set of answered (candidate, height class, sign)) and simulate() steps between them. "
